@@ -600,3 +600,34 @@ def schema_raw(ctx, py, rule="PY-SCHEMA-RAW", mod="tables"):
             ctx.ob(rule, "%s@%d" % (qn, i), ok, m.loc(v), "`%s` is the stored text" % txt[:60] if ok else
                    "`%s` re-canonicalises the schema: the copy / pickle / dict round trip of a table whose stored schema text is not canonical is unequal to its source" % txt[:60])
     ctx.ob(rule, "instances", n >= 2, m.rel, "%d metadata_schema entries in asdict methods" % n)
+
+
+# ------------------------------------------------------------------------------------------------------------------------
+# UTF8-SIZE
+
+def utf8_size(ctx, P, rule="UTF8-SIZE"):
+    """PyUnicode_AsUTF8AndSize(str, NULL) hands back a buffer whose length the caller never learns; the library then reads it as
+    a C string, so `"A\\0zzz"` is silently the allele "A".  Every conversion takes the size and either passes it on or compares
+    it with strlen."""
+    ctx.rule(rule, "every PyUnicode_AsUTF8AndSize call of the module and the lwt header receives a size pointer (not NULL), and a "
+                   "function that hands the buffer to the library as a C string (no length travels with it) compares the size with "
+                   "strlen: a Python string with an embedded NUL is refused, not truncated")
+    tu = P.tus["module"]
+    n = 0
+    for fn in tu.funcs.values():
+        if fn.body is None:
+            continue
+        k = 0
+        for c in walk(fn.body):
+            if c.k != "CallExpr":
+                continue
+            txt = _norm(tu.src(c))
+            if not txt.startswith("PyUnicode_AsUTF8AndSize("):
+                continue
+            n += 1
+            arg = txt[len("PyUnicode_AsUTF8AndSize("):-1].rsplit(",", 1)[-1].strip()
+            ok = arg not in ("NULL", "0")
+            ctx.ob(rule, "%s@%d" % (fn.name, k), ok, tu.loc(c), "size received in `%s`" % arg if ok else
+                   "`%s`: the size is discarded, the buffer is read up to its first NUL: a string with an embedded NUL is silently truncated" % txt[:60])
+            k += 1
+    ctx.ob(rule, "instances", n >= 3, "python/_tskitmodule.c", "%d UTF-8 conversions" % n)
